@@ -21,9 +21,12 @@ type Pair struct {
 	Trace      []string
 }
 
-func NewPair(fileDir string) (*Pair, error) {
-	ci := Config{Initiator: true, BeginString: "FIX.4.2", FileDir: fileDir}
-	ca := Config{BeginString: "FIX.4.2", Flip: true, FileDir: fileDir}
+func NewPair(fileDir string) (*Pair, error) { return NewPairBS(fileDir, "FIX.4.2") }
+
+// NewPairBS: both engines speak the given BeginString.
+func NewPairBS(fileDir, bs string) (*Pair, error) {
+	ci := Config{Initiator: true, BeginString: bs, FileDir: fileDir}
+	ca := Config{BeginString: bs, Flip: true, FileDir: fileDir}
 	i, err := NewWorld(ci)
 	if err != nil {
 		return nil, err
@@ -194,6 +197,21 @@ func (p *Pair) Timers() {
 			p.apply(w, EvTimeout(quickfix.VerifNeedHeartbeat))
 		}
 	}
+}
+
+// PeerTimer fires the silent-peer timer of one side, if it is armed there (TestRequest, or disconnect when one
+// is already pending). Returns false when the event is not enabled.
+func (p *Pair) PeerTimer(onI bool) bool {
+	w := p.A
+	if onI {
+		w = p.I
+	}
+	e := EvTimeout(quickfix.VerifPeerTimeout)
+	if !w.VS.Snapshot().LoggedOn || !w.Enabled(e) {
+		return false
+	}
+	p.apply(w, e)
+	return true
 }
 
 // Quiesce runs the default schedule until nothing is left to do (bounded).
